@@ -25,7 +25,7 @@ func TestMain(m *testing.M) { rec.Main(m) }
 
 const rule = "scripts = tape-driven scenarios on 2 connected chains exercising cross-chain calls (ok / reverting / failing-hook call data), Tendermint/BSC(3 validators)/ETH(Rinkeby)/TSS client updates, receives, acks, " +
 	"TSS-injected packets, coin/ERC-20 conversions, staking and gov system-contract calls, bank sends, reward vesting every block, and governance proposals of all 12 kinds through the real submit/vote/EndBlock flow; " +
-	"each script is executed by three nodes: one that never stops, one whose process restarts between blocks (new application object over the same database after every k-th commit, k drawn from 1..5), and a child process with GOMAXPROCS=1 and an unusable TMPDIR that also runs Simulate and CheckTx on every transaction before delivering it (and may restart too); every ABCI response (begin/end block events, every DeliverTx code, data, log, gas, ordered events, commit hash) must be identical; " +
+	"each script is executed by three nodes: one that never stops, one whose process restarts between blocks (new application object over the same database after every k-th commit, k drawn from 1..5), and a child process with GOMAXPROCS=1 and an unusable TMPDIR that also runs Simulate and CheckTx on every transaction before delivering it (and may restart too); the two replicas additionally run under a drawn node-operator configuration (every non-consensus server option of the SDK / Ethermint servers set to tight or loose values); every ABCI response (begin/end block events, every DeliverTx code, data, log, gas, ordered events, commit hash) must be identical; " +
 	"non-trivial = script with >= 6 distinct message/proposal kinds including a BSC update; distinct by set of kinds"
 
 // rapidChooser draws from rapid and records the tape.
@@ -120,7 +120,8 @@ func TestC14_ReplayDeterminism(t *testing.T) {
 		// node B restarts its process between blocks; the child process additionally simulates and CheckTx-es every transaction
 		profB := nodeProfile{RestartEvery: rapid.IntRange(1, 5).Draw(t, "restartEvery")}
 		profB.RestartOffset = rapid.IntRange(0, profB.RestartEvery-1).Draw(t, "restartOffset")
-		profC := nodeProfile{Simulate: true}
+		profB.Config = rapid.SampledFrom([]string{"", "tight", "loose"}).Draw(t, "nodeBConfig")
+		profC := nodeProfile{Simulate: true, Config: rapid.SampledFrom([]string{"tight", "loose", ""}).Draw(t, "childConfig")}
 		if rapid.Bool().Draw(t, "childRestarts") {
 			profC.RestartEvery = rapid.IntRange(2, 9).Draw(t, "childRestartEvery")
 		}
